@@ -2029,7 +2029,7 @@ void SZ_compress_args_float_NoCkRngeNoGzip_2D_pwr_pre_log_MSST19(unsigned char**
     if(!*positive){
 	    unsigned char * comp_signs;
 		// compress signs
-		uint64_t signSize = sz_lossless_compress(confparams_cpr->losslessCompressor, confparams_cpr->gzipMode, signs, dataLength, &comp_signs);
+		uint64_t signSize = sz_lossless_compress(ZSTD_COMPRESSOR, 3, signs, dataLength, &comp_signs); //the decompressor unwraps the sign plane with ZSTD_COMPRESSOR whatever the configured back end is
 		tdps->pwrErrBoundBytes = comp_signs;
 		tdps->pwrErrBoundBytes_size = signSize;
 	}
@@ -2065,7 +2065,7 @@ void SZ_compress_args_float_NoCkRngeNoGzip_3D_pwr_pre_log_MSST19(unsigned char**
 	if(!*positive){
 		unsigned char * comp_signs;
 		// compress signs
-		uint64_t signSize = sz_lossless_compress(confparams_cpr->losslessCompressor, confparams_cpr->gzipMode, signs, dataLength, &comp_signs);
+		uint64_t signSize = sz_lossless_compress(ZSTD_COMPRESSOR, 3, signs, dataLength, &comp_signs); //the decompressor unwraps the sign plane with ZSTD_COMPRESSOR whatever the configured back end is
 		tdps->pwrErrBoundBytes = comp_signs;
 		tdps->pwrErrBoundBytes_size = signSize;
 	}
